@@ -1607,6 +1607,7 @@ func ruleShiftOnlyUnsigned(c *Ctx, dv *dev, rule string) {
 			continue
 		}
 		unsignedOK, noShiftOK := false, false
+		var flagVals []ssa.Value // the tested values that say "no shift was applied"
 		for _, a := range NewFnView(c.P, fl.Parent()).GuardsAt(fl.Block()) {
 			if a.Instr == nil {
 				continue
@@ -1616,6 +1617,100 @@ func ruleShiftOnlyUnsigned(c *Ctx, dv *dev, rule string) {
 			}
 			if noShift(a.Instr.Cond, a.Taken, 0) {
 				noShiftOK = true
+				fv := ssa.Value(a.Instr.Cond)
+				for {
+					u, ok := fv.(*ssa.UnOp)
+					if !ok || u.Op != token.NOT {
+						break
+					}
+					fv = u.X
+				}
+				flagVals = append(flagVals, fv)
+			}
+		}
+		// a shift made after the flag was computed is not recorded in it: unless the shift's own guards exclude the
+		// flip's, it reaches the flip unnoticed (a conversion `if !canBeNegative { v = 2v-1 }` put in front of the flip)
+		if unsignedOK && noShiftOK {
+			rootPol := func(b *ssa.BasicBlock) map[string]bool {
+				out := map[string]bool{}
+				vw := NewFnView(c.P, b.Parent())
+				var add func(v ssa.Value, pol bool, depth int)
+				add = func(v ssa.Value, pol bool, depth int) {
+					for {
+						u, ok := v.(*ssa.UnOp)
+						if !ok || u.Op != token.NOT {
+							break
+						}
+						v, pol = u.X, !pol
+					}
+					// `a || b` / `a && b`: a phi of a constant (from the block that tested a) and b; when the phi's value
+					// differs from the constant, b has that value and a went the way that did not select the constant
+					if phi, ok := v.(*ssa.Phi); ok && depth < 4 {
+						var rest []ssa.Value
+						okShape := true
+						var tests []struct {
+							cond ssa.Value
+							pol  bool
+						}
+						for i, e := range phi.Edges {
+							k, isK := e.(*ssa.Const)
+							if !isK || k.Value == nil || k.Value.Kind() != constant.Bool {
+								rest = append(rest, e)
+								continue
+							}
+							if constant.BoolVal(k.Value) == pol {
+								okShape = false // this edge can deliver the value: nothing follows
+								continue
+							}
+							pr := phi.Block().Preds[i]
+							if ifi, isIf := pr.Instrs[len(pr.Instrs)-1].(*ssa.If); isIf {
+								tests = append(tests, struct {
+									cond ssa.Value
+									pol  bool
+								}{ifi.Cond, pr.Succs[0] != phi.Block()})
+							}
+						}
+						if okShape && len(rest) == 1 {
+							add(rest[0], pol, depth+1)
+							for _, t := range tests {
+								add(t.cond, t.pol, depth+1)
+							}
+							return
+						}
+					}
+					out[vw.Term(v).String()] = pol
+				}
+				for _, a := range vw.GuardsAt(b) {
+					if a.Instr == nil {
+						continue
+					}
+					add(a.Instr.Cond, a.Taken, 0)
+				}
+				return out
+			}
+			flipG := rootPol(fl.Block())
+			for sb := range shiftBlocks {
+				if sb.Parent() != fl.Parent() || sb == fl.Block() || !reaches(sb, fl.Block(), nil) {
+					continue
+				}
+				recorded := false // does a flag the flip tests get (re)defined at or after the shift?
+				for _, v := range flagVals {
+					if in, ok := v.(ssa.Instruction); ok && (in.Block() == sb || reaches(sb, in.Block(), nil)) {
+						recorded = true
+					}
+				}
+				if recorded {
+					continue
+				}
+				exclusive := false
+				for v, pol := range rootPol(sb) {
+					if fp, ok := flipG[v]; ok && fp != pol {
+						exclusive = true
+					}
+				}
+				if !exclusive {
+					noShiftOK = false
+				}
 			}
 		}
 		if !(unsignedOK && noShiftOK) && loadsField(fl.Y) {
